@@ -1005,6 +1005,12 @@ def run(ctx):
     impl_lines = ["%s %s %s" % (hexdoc(c["system"]), "g" if i in exec_set else "-", marks_text(c["marks"])) for i, c in enumerate(cases)]
     mdl_lines = ["%s | %s" % (A.to_model_line(c["system"]), marks_text(c["marks"])) for c in cases]
     impl_raw = run_sharded(drv, [], impl_lines, ctx.workdir, "impl")
+    # a case that timed out or went missing is run once more, on its own (the alarm is wall-clock time on a shared machine)
+    again = [i for i, l in enumerate(impl_raw) if l.startswith("TIMEOUT") or l == "<missing>"]
+    if again:
+        ctx.log("re-running %d cases that timed out" % len(again))
+        for i, l in zip(again, run_sharded(drv, [], [impl_lines[i] for i in again], ctx.workdir, "impl_again")):
+            impl_raw[i] = l
     model_raw = run_sharded(mdl, ["analyse"], mdl_lines, ctx.workdir, "model")
 
     nviol = [0]
